@@ -17,6 +17,9 @@ EXPLANATION = __doc__
 def run(ctx):
     prog = ctx.prog
     ctx.trust("random.shuffle is a uniform in-place Fisher-Yates permutation; calls are independent")
+    with ctx.obligation("C03.1", "every exit of a generator comes after its stub loops (no placement is cut off)") as o0:
+        for qn in gen_common.GENERATORS:
+            gen_common.early_exits(o0, prog, qn)
     for qn in gen_common.GENERATORS:
         with ctx.obligation("C03.1", "shuffle of every stub list dominates every consumption of the stub lists") as o1, \
                 ctx.obligation("C03.2", "shuffle is applied in place to the element itself") as o2:
